@@ -289,6 +289,20 @@ def run(R, env):
                                 verdicts.append(ok2)
                         if verdicts and all(verdicts):
                             how = "guarded / justified at every call site"
+                    if how is None:
+                        # the denominator is a field of an argument / of the receiver (`self.batch_total_liquid_stake`
+                        # in a method of the batch, possibly inside its closure): the helper is as safe as its callers,
+                        # each of which must be a reviewed site for this kind of ratio (the reason given there is about
+                        # the value, not about where the division is written)
+                        root = den
+                        while root[0] == "field":
+                            root = root[1]
+                        kf = k.split("::{closure")[0]
+                        if root[0] in ("param", "capture") and kf != k or (root[0] == "param" and den[0] == "field"):
+                            callers = [cb2.key.split("::{closure")[0] for cb2 in prog.fn_bodies() for cbi, ct in cb2.calls() if ct.get("rkey") == kf]
+                            # (through one more level of helper: native_share -> claimable..; callers of callers)
+                            if callers and all((c_, nm.split("::")[-1]) in RATIO_JUSTIFIED for c_ in callers):
+                                how = "every caller is a reviewed site"
                     R.ob("C16.R5", "ratio:%s" % nm.split("::")[-1] + ":" + descr(prog, den), how is not None, "%s with denominator %s: the denominator can be zero on this path (no is_zero() test of it dominates the call, not a constant, not in the reviewed table): division by zero panics" % (short(nm), fmt(den)[:120]), loc=b.loc(bi), fn=k)
     # R6: 128-bit products of amounts
     def is_mul128(t):
@@ -330,18 +344,7 @@ def run(R, env):
     R.ob("C16.R2", "I4:state-saved-at-instantiation", len(sv) >= 1 and all(must_pass(ic, o["root_bb"]) for o in sv), "instantiate can succeed without saving STATE", fn="staking::contract::instantiate")
     # timeout-built-with-timestamp: descriptor already encodes it (timestamp(with_timestamp))
     # received-set-with-status
-    sites = shared.site_contexts(prog, "staking", env)
-    okr = False
-    for site, c in sites.items():
-        for o in storage_ops_deep(prog, c, env.depth):
-            if o["kind"] == "w" and ns_of(prog, o["args"][0]) == "batches" and o["op"] == "save":
-                for base, d in struct_deltas(resolve_terms(prog, o["args"][3], env.depth)):
-                    st = d.get(("status",))
-                    if st is not None and st[0] == "agg" and st[2] == "Received":
-                        rv = d.get(("received_native_unstaked",))
-                        okr = rv is not None and rv[0] == "agg" and rv[2] == "Some"
-                        R.ob("C16.R2", "I4:received-set-with-status:" + site, okr, "a batch is marked Received without received_native_unstaked := Some(..) in the same save", loc=o["loc"], fn=o["fn"])
-    R.ob("C16.R2", "I4:received-set-with-status", okr, "no site marks a batch Received together with the received amount", fn="staking")
+    shared.received_set_with_status(R, env, prog, "C16.R2", "I4:received-set-with-status")
     # ------------------------------------------------------------ R4
     for k, loc, nm in explicit:
         R.ob("C16.R4", "explicit-panic", False, "explicit panic (%s) reachable from an entry point" % nm, loc=loc, fn=k)
